@@ -23,6 +23,7 @@ CLAUSES = {
     "63": "C06: two outstanding packets carry the same packet id, or id 0",
     "64": "C06: the peer acknowledged correctly and in order but the connection was closed",
     "65": "C06: a mismatching acknowledgement completed a send successfully",
+    "81": "C08: a packet was written while a streamed PUBLISH payload was still owed (interleaved into the payload)",
     "131": "C13: at quiescence a task is still parked although the window is open, back-pressure is off and "
            "nothing is outstanding (not one of the recorded findings)",
     "141": "C14: releasing / dropping a QoS 2 receipt did not write exactly one PUBREL with its own id",
@@ -61,6 +62,7 @@ def track(ver, case, obs, want):
     phase = {}        # task -> 'sent' | 'acked' | 'receipt' | 'released' | 'comp'
     id_of = {}        # task -> packet id
     prev_cap, prev_wrb, prev_open = cap0, 0, 1
+    prev_streaming = 0
     prev_tasks = {}
     closed_expected = False
     good_peer = True
@@ -105,6 +107,8 @@ def track(ver, case, obs, want):
                 closed_expected = True
                 good_peer = False
         # --- packets written in this step
+        if 8 in want and prev_streaming and any(tag != CHUNK and tag != DISC for (tag, _) in wire):
+            return "0,81,%d" % i
         for (tag, pid) in wire:
             if tag in (PUB1, PUB2, SUB, UNSUB):
                 if 5 in want and not closed_expected:
@@ -162,6 +166,7 @@ def track(ver, case, obs, want):
                 and any(tag in (PUB1, PUB2, SUB, UNSUB) for (tag, _) in wire):
             return "0,52,%d" % i
         prev_cap, prev_wrb, prev_open, prev_tasks = cap, wrb, is_open, tasks
+        prev_streaming = streaming
     if 13 in want:
         sr = G.stuck_report(ver, case, obs)
         if sr is not None:
